@@ -112,10 +112,14 @@ def _release_lock_on_arr_writeability(arr: np.ndarray):
     writeability restored.
     """
     arr_id = id(arr)
-    if not array_is_tracked(arr):
-        # e.g. a natively read-only array. A lock-count that was left behind
-        # under this ID by an array that no longer exists must not be applied
-        # to it.
+    tracked_ref = _array_tracker.get(arr_id)
+    if tracked_ref is not None and tracked_ref() is None:
+        # The bookkeeping stored under this ID was left behind by an array that
+        # no longer exists; `arr` merely re-uses its ID (e.g. a natively
+        # read-only array, which is never tracked). That lock-count must not be
+        # applied to `arr`.
+        del _array_tracker[arr_id]
+        _array_counter.pop(arr_id, None)
         return
     num_active_ops = _array_counter[arr_id]
 
